@@ -704,3 +704,163 @@ class BaseRefine(Contract):
 
 CONTRACTS += [MetaRefine(1), MetaRefine(2), RefinementPostprocessing(), BaseRefine(1), BaseRefine(2)]
 LEMMAS += [L.SmtLemma("InList-axioms-hold-for-the-existential-definition", _inpop_lemma)]
+
+
+# --------------------------------------------------------------------------- the "largest benefit" the margin refers to
+class GetMaxBenefit(Contract):
+    """RefinementContainer.get_max_benefit (any container size): the result is an upper bound of every benefit, never negative, and is 0 or attained"""
+    file, qualname = RC_FILE, "RefinementContainer.get_max_benefit"
+
+    def inputs(self, S):
+        return {"self": container(S)}
+
+    def result(self, S, env):
+        return S.real("max_benefit")
+
+    @staticmethod
+    def is_max(r, ben, n, tag):
+        j = z3.Int("mb" + tag)
+        return z3.And(r >= 0, z3.ForAll([j], z3.Implies(z3.And(j >= 0, j < n), z3.Select(ben, j) <= r)),
+                      z3.Or(r == 0, z3.Exists([j], z3.And(j >= 0, j < n, z3.Select(ben, j) == r))))
+
+    def inv(self, S, env, g):
+        from pyvc import values as Vv
+        ben = S.ex.old["self"].fields["refinementObjects"].fields["benefit"]
+        return [("maximum-so-far", self.is_max(Vv.to_z3(env["max_benefit"], True), ben, g["k"], "i")),
+                ("benefits-untouched", env["self"].fields["refinementObjects"].fields["benefit"] == ben)]
+
+    @property
+    def loops(self):
+        return {0: Loop(inv=lambda S, env, g: self.inv(S, env, g))}
+
+    def post(self, S, old, env, result):
+        from pyvc import values as Vv
+        o = old["self"].fields["refinementObjects"]
+        return [Cl("largest-benefit-of-the-container-or-zero", self.is_max(Vv.to_z3(result, True), o.fields["benefit"], o.length, "p"), prop=True),
+                Cl("benefits-untouched", env["self"].fields["refinementObjects"].fields["benefit"] == o.fields["benefit"])]
+
+
+class MetaGetMaxBenefit(Contract):
+    """MetaRefinementContainer.get_max_benefit (fixed number of dimensions, any container sizes): the largest benefit over all dimensions (0 if none is positive)"""
+    file, qualname = RC_FILE, "MetaRefinementContainer.get_max_benefit"
+
+    def __init__(self, ndim):
+        self.ndim = ndim
+        self.label = "MetaRefinementContainer.get_max_benefit[dims=%d]" % ndim
+
+    def inputs(self, S):
+        conts = []
+        for c in range(self.ndim):
+            n = S.int("n%d" % c)
+            S.assume(n >= 0)
+            objs = ObjSeq("RefinementObjectSingleDimension", n, dict(benefit=S.array("benefit%d" % c, I, R)))
+            conts.append(Obj("RefinementContainer", dict(refinementObjects=objs, dim=1, startNewObjects=S.int("startNewObjects%d" % c), searchPosition=S.int("searchPosition%d" % c))))
+        return {"self": Obj("MetaRefinementContainer", dict(refinementContainers=Seq("list", conts)))}
+
+    def applies(self, receiver, args):
+        return len(receiver.fields["refinementContainers"].items) == self.ndim
+
+    def result(self, S, env):
+        return S.real("meta.max_benefit")
+
+    def pre(self, S, env):
+        out = []
+        for c, cont in enumerate(env["self"].fields["refinementContainers"].items):
+            out += [("c%d.%s" % (c, n), e) for n, e in container_wf(cont)]
+        return out
+
+    def post(self, S, old, env, result):
+        from pyvc import values as Vv
+        r = Vv.to_z3(result, True)
+        conts = old["self"].fields["refinementContainers"].items
+        j = z3.Int("mj2")
+        upper = [z3.ForAll([j], z3.Implies(z3.And(j >= 0, j < c.fields["refinementObjects"].length), z3.Select(c.fields["refinementObjects"].fields["benefit"], j) <= r)) for c in conts]
+        attained = [z3.Exists([j], z3.And(j >= 0, j < c.fields["refinementObjects"].length, z3.Select(c.fields["refinementObjects"].fields["benefit"], j) == r)) for c in conts]
+        return [Cl("largest-benefit-over-all-dimensions-or-zero", z3.And(r >= 0, z3.And(*upper), z3.Or(r == 0, *attained)), prop=True)]
+
+
+CONTRACTS += [GetMaxBenefit(), MetaGetMaxBenefit(1), MetaGetMaxBenefit(2), MetaGetMaxBenefit(3)]
+
+
+# --------------------------------------------------------------------------- evaluate_operation: benefit_max IS the largest benefit after the evaluation
+BASE_FILE = "sparseSpACE/spatiallyAdaptiveBase.py"
+
+
+class _EvalStep(Contract):
+    """abstract evaluation step of the driver (component-grid evaluation, error estimation): may rewrite every benefit / error of the refinement
+    structure; nothing else of the structure is read by evaluate_operation afterwards"""
+    trusted = True
+    file = BASE_FILE
+
+    def __init__(self, qualname, params, note, result=None):
+        self.qualname, self._params, self.note, self._result = qualname, params, note, result
+
+    def inputs(self, S):
+        d = {"self": Obj("SpatiallyAdaptiveSingleDimensions2", {})}
+        for p in self._params:
+            d[p] = None
+        return d
+
+    def havoc(self, S, cenv, tag):
+        meta = cenv["self"].fields.get("refinement")
+        if meta is None:
+            return
+        for c, cont in enumerate(meta.fields["refinementContainers"].items):
+            o = cont.fields["refinementObjects"]
+            o.fields["benefit"] = S.array("%s.benefit%d" % (tag, c), I, R)
+
+    def result(self, S, env):
+        return self._result(S) if self._result else None
+
+
+class EvaluateOperation(Contract):
+    """SpatiallyAdaptivBase.evaluate_operation (dimension-wise receiver, 1-2 dimensions, any container sizes): after the evaluation steps,
+    self.benefit_max is the largest benefit present in the refinement structure (0 if none is positive) -- the quantity the margin of the
+    next refinement step is a fraction of"""
+    file, qualname = BASE_FILE, "SpatiallyAdaptivBase.evaluate_operation"
+
+    def __init__(self, ndim):
+        self.ndim = ndim
+        self.label = "SpatiallyAdaptivBase.evaluate_operation[dims=%d]" % ndim
+
+    def inputs(self, S):
+        from pyvc.values import Func
+        conts = []
+        for c in range(self.ndim):
+            n = S.int("n%d" % c)
+            S.assume(n >= 0)
+            objs = ObjSeq("RefinementObjectSingleDimension", n, dict(benefit=S.array("benefit%d" % c, I, R), error=S.array("error%d" % c, I, R)))
+            conts.append(Obj("RefinementContainer", dict(refinementObjects=objs, dim=1, startNewObjects=S.int("startNewObjects%d" % c), searchPosition=S.int("searchPosition%d" % c))))
+        meta = Obj("MetaRefinementContainer", dict(refinementContainers=Seq("list", conts)))
+        op = Obj("Integration", {})
+        return {"self": Obj("SpatiallyAdaptiveSingleDimensions2", dict(refinement=meta, operation=op, norm=S.int("norm"), benefit_max=S.real("benefit_max0"), total_error=S.real("total_error0"),
+                                                                       log_util=Obj("LogUtility", dict(time_func=Func("builtin", "pyvc.call_through")))))}
+
+    def pre(self, S, env):
+        out = []
+        for c, cont in enumerate(env["self"].fields["refinement"].fields["refinementContainers"].items):
+            out += [("c%d.%s" % (c, n), e) for n, e in container_wf(cont)]
+        return out
+
+    def post(self, S, old, env, result):
+        from pyvc import values as Vv
+        f = env["self"].fields
+        r = Vv.to_z3(f["benefit_max"], True)
+        conts = f["refinement"].fields["refinementContainers"].items
+        j = z3.Int("ej")
+        upper = [z3.ForAll([j], z3.Implies(z3.And(j >= 0, j < c.fields["refinementObjects"].length), z3.Select(c.fields["refinementObjects"].fields["benefit"], j) <= r)) for c in conts]
+        attained = [z3.Exists([j], z3.And(j >= 0, j < c.fields["refinementObjects"].length, z3.Select(c.fields["refinementObjects"].fields["benefit"], j) == r)) for c in conts]
+        return [Cl("benefit-max-is-the-largest-benefit-of-the-structure-as-evaluated", z3.And(r >= 0, z3.And(*upper), z3.Or(r == 0, *attained)), prop=True)]
+
+
+_STEPS = [_EvalStep("SpatiallyAdaptivBase.get_new_areas", [], "returns the areas to evaluate", result=lambda S: Opaque_list(S)),
+          _EvalStep("SpatiallyAdaptivBase.init_evaluation_operation", ["areas"], "prepares the evaluation"),
+          _EvalStep("SpatiallyAdaptivBase.compute_solutions", ["areas", "evaluation_array"], "evaluates all component grids (C05 contract for the accumulation)"),
+          _EvalStep("SpatiallyAdaptivBase.finalize_evaluation_operation", ["areas", "evaluation_array"], "error estimates and benefits of every refinement object are (re)computed here"),
+          _EvalStep("MetaRefinementContainer.get_total_error", [], "sum of the errors (a float)", result=lambda S: S.real("total_error")),
+          _EvalStep("Integration.print_evaluation_output", ["refinement"], "prints"),
+          _EvalStep("Integration.get_global_error_estimate", ["refinement_container", "norm"], "error estimate or None", result=lambda S: S.real("global_error"))]
+_STEPS[4].file = RC_FILE
+_STEPS[5].file = "sparseSpACE/GridOperation.py"
+_STEPS[6].file = "sparseSpACE/GridOperation.py"
+CONTRACTS += _STEPS + [EvaluateOperation(1), EvaluateOperation(2)]
